@@ -157,7 +157,7 @@ type NameWithConditions struct {
 }
 
 type Condition struct {
-	Argument  uint32    `config:"argument" default:"0" json:"position"  yaml:"position"`
+	Argument  uint32    `config:"argument" default:"0" json:"argument"  yaml:"argument"`
 	Operation Operation `config:"operation" validate:"required" json:"operation"  yaml:"operation"`
 	Value     uint64    `config:"value" default:"0" json:"value"  yaml:"value"`
 }
